@@ -104,22 +104,29 @@ def model_line(o):
     return "R %d %s %d %d %d %s" % (n, c0["r.chunk"], 1 if c0["r.mode"] == "2" else 0, base, inclen, " ".join(ans)), impl
 
 
-def correspond(ctx, exe, traces):
+def prepare_corr(tag, trace, eops):
+    """(runs in the worker) -> list of (model line | MISMATCH text, scenario tag, op description, impl triples, janet-level status)"""
+    out = []
+    byname = {(o["fiber"], o["idx"]): o for o in eops}
+    for o in ops_from_trace(trace):
+        ml, impl = model_line(o)
+        if ml is None:
+            continue
+        e = byname.get((o["name"], o["idx"]))
+        out.append((ml, tag, {"name": o["name"], "idx": o["idx"], "kind": o["kind"]}, impl, e["status"] if e else None))
+    return out
+
+
+def correspond(ctx, exe, corr):
     """compare the per-operation call sequences and outcomes of the implementation with the model"""
     lines, meta = [], []
     state_mismatch = []
-    for tag, trace, eops in traces:
-        byname = {(o["fiber"], o["idx"]): o for o in eops}
-        for o in ops_from_trace(trace):
-            ml, impl = model_line(o)
-            if ml is None:
-                continue
-            if ml.startswith("MISMATCH"):
-                state_mismatch.append({"scenario": tag, "op": "%s[%s]" % (o["name"], o["idx"]), "what": ml})
-                continue
-            lines.append(ml)
-            e = byname.get((o["name"], o["idx"]))
-            meta.append((tag, o, impl, e["status"] if e else None))
+    for ml, tag, o, impl, status in corr:
+        if ml.startswith("MISMATCH"):
+            state_mismatch.append({"scenario": tag, "op": "%s[%s]" % (o["name"], o["idx"]), "what": ml})
+            continue
+        lines.append(ml)
+        meta.append((tag, o, impl, status))
     if not lines or not exe:
         return 0, [], state_mismatch, {}
     out = ctx.model(lines, exe=exe)
@@ -210,7 +217,11 @@ def run_batch(ctx, exe, jobs):
         fam, k, sc = job
         res = scen.run_scenario(sc, exe)
         fails, ops = scen.oracle(sc, res)
-        return fam, k, sc, res, fails, ops
+        # keep only what the report needs (payloads / sinks / full traces of thousands of scenarios do not fit in memory)
+        corr = prepare_corr("%s/%s" % (fam, k), res["trace"], ops)
+        light = {"trace": res["trace"][-3000:], "stdout": res["stdout"][-3000:], "stderr": res["stderr"][-1500:],
+                 "faults": scen.fault_counts(res["trace"]), "corr": corr}
+        return fam, k, sc, light, fails, len(ops)
     with cf.ThreadPoolExecutor(int(os.environ.get("VERIF_JOBS", "14"))) as ex:
         return list(ex.map(one, jobs))
 
@@ -272,21 +283,22 @@ def run(ctx, only=None):
     reported = set()
     traces = []
     for fam, k, sc, res, fails, ops in results:
-        fc = scen.fault_counts(res["trace"])
+        fc = res["faults"]
         for kk in faults:
             faults[kk] += fc[kk]
         fam_count[sc["family"]] = fam_count.get(sc["family"], 0) + 1
         for s in sc["streams"]:
             kinds[s["kind"]] = kinds.get(s["kind"], 0) + 1
         sizes += sc["payload_sizes"]
-        nops += len(ops)
-        traces.append(("%s/%s" % (fam, k), res["trace"], ops))
+        nops += ops
+        traces += res["corr"]
         for sig, desc in fails:
             if sig in reported:
                 continue
             reported.add(sig)
+            os.makedirs(ctx.replay_dir, exist_ok=True)   # scratch output directories are shared with other runs' clean-up
             ctx.violation(sig, {"kind": "scenario", "scenario": sc, "family": sc["family"], "failure": desc,
-                                "stdout_tail": res["stdout"][-3000:], "stderr_tail": res["stderr"][-1500:], "trace_tail": res["trace"][-3000:]},
+                                "stdout_tail": res["stdout"], "stderr_tail": res["stderr"], "trace_tail": res["trace"]},
                           what="%s: %s" % (sc["family"], desc[:500]))
     nexec, efails = exec_checks(ctx, exe)
     for sig, desc in efails:
